@@ -18,8 +18,10 @@ LEVEL_TEXT = ("Coq theorems over an exact-rational executable model: the pivot f
               "of the orthogonal residual of the min-max-scaled point (= minimum squared distance to the line; entrywise (x-min)/(max-min), "
               "0 for a constant objective, entries in [0,1]), are invariant to translation of the front and finite when an objective is "
               "constant (all three copies after commit 47ce3c75; refuted for the unguarded variant); the two selection copies are proved "
-              "to be the core function with their two vector arguments exchanged (documented roles refuted: known finding "
-              "C19-trans-roles-swapped). The model is tied to the code by evaluating it inside Coq against the implementation's outputs "
+              "to be the core function with the documented roles of their two vector arguments (objectives signed by obj_wt, distance "
+              "to the line spanned by vec_wt) for every sign vector and every non-negative non-zero preference vector (after commit "
+              "9b993ed9, which repaired finding C19-trans-roles-swapped; the former code is kept as old_trans_sel and refuted as a "
+              "regression witness). The model is tied to the code by evaluating it inside Coq against the implementation's outputs "
               "on generated inputs")
 LEVEL_NOTE = ("trusted: Coq kernel + vm_compute; numpy float comparisons/products/differences are exact on the dyadic input grid; the "
               "1/range scaling, the dot products and numpy.linalg.norm are compared in regime T (squared distance within 2^-30(1+|y|) of "
@@ -351,19 +353,13 @@ def _pred_dist(case, out):
     mat = _fr(case["mat"]); sign = [Fraction(x) for x in case["sign"]]; pref = [Fraction(x) for x in case["pref"]]
     # the property: objectives signed by the sign vector, min-max scaled, distance to the line spanned by the preference vector
     want = _geo2(mat, sign, pref)
+    # (all three functions alike: the selection copies had the two vectors exchanged before commit 9b993ed9 — finding
+    #  C19-trans-roles-swapped, repaired; nothing is excused here any more)
     miss = [i for i in range(n) if not _close2(d[i], want[i])]
-    if miss and case["fn"] != "core":
-        # known finding C19-trans-roles-swapped: the selection copies scale the columns by vec_wt and measure the distance
-        # to obj_wt.  Accept exactly that deviation under the finding's clause; anything else is a new violation.
-        coded = _geo2(mat, pref, sign)
-        if all(_close2(d[i], coded[i]) for i in range(n)):
-            i = miss[0]
-            bad.append("DOCROLES: distance of point %d is %r; the documented definition (objectives signed by obj_wt, distance "
-                       "to the vector vec_wt) gives sqrt(%s) = %r" % (i, d[i], want[i], math.sqrt(want[i])))
-            want, miss = coded, []
     if miss:
         i = miss[0]
-        bad.append("distance of point %d is %r, geometric definition gives sqrt(%s) = %r" % (i, d[i], want[i], math.sqrt(want[i])))
+        bad.append("distance of point %d is %r, geometric definition (objectives signed by the sign vector, distance to the "
+                   "preference vector) gives sqrt(%s) = %r" % (i, d[i], want[i], math.sqrt(want[i])))
     for i in range(n):
         if not _close2(ds[i], want[i]):
             bad.append("distance of point %d changes under translation by %s: %r vs %r" % (i, case["shift"], ds[i], d[i])); break
@@ -383,9 +379,7 @@ def pred(case, out):
     return seen[:8]
 
 def classify(case, out, clauses):
-    if case["kind"] == "dist" and case["fn"] in ("prob", "transfn") and clauses and all(c.startswith("DOCROLES:") for c in clauses):
-        return "C19-trans-roles-swapped"
-    return None
+    return None          # no known finding is open for C19 (C19-trans-nan and C19-trans-roles-swapped are repaired)
 
 def _rows(case):
     return case["fmat"] if case["kind"] == "pareto" else case.get("mat", [])
